@@ -231,6 +231,9 @@ impl Scenario for MecabScenario {
             "%L?[2],%L?[1]/B10:%R[0]",
             // literal text with characters that other parsers give a meaning
             "B11:%L[0]/R#1:%R[1]",
+            // a reference of the other side's kind is literal text
+            "B13:x%R[0]:%L[0]/%R[0]",
+            "B14:%L[1]/y%L?[0]:%R[1]",
             "B12:%L[1]/%R[0];y",
         ];
         let n_t = 1 + rng.usize(6);
@@ -267,7 +270,8 @@ impl Scenario for MecabScenario {
         let n_r = 2 + rng.usize(7);
         let n_l = 2 + rng.usize(7);
         let table = |rng: &mut Rng, n: usize| -> Vec<String> {
-            let mut v = vec!["0 BOS/EOS,*,*".to_string()];
+            // (the first column may be quoted)
+            let mut v = vec![if rng.chance(1, 6) { "0 \"BOS/EOS\",*,*".to_string() } else { "0 BOS/EOS,*,*".to_string() }];
             for i in 1..n {
                 if wide {
                     v.push(format!("{i} {}", gen_wide_id_feats(rng)));
@@ -297,7 +301,14 @@ impl Scenario for MecabScenario {
                 1 => {
                     t.push(format!("{} x,y,z", t.len() + 1));
                 }
-                2 => t[0] = "0 名0,*,*".to_string(),
+                2 => {
+                    t[0] = match rng.below(3) {
+                        0 => "0 名0,*,*".to_string(),
+                        // a first column that only starts like BOS/EOS
+                        1 => "0 BOS/EOS2,*,*".to_string(),
+                        _ => "0 BOS/EOSx".to_string(),
+                    }
+                }
                 3 => {
                     let i = rng.usize(t.len());
                     t[i] = match rng.below(3) {
@@ -581,7 +592,7 @@ impl Scenario for MecabScenario {
     fn describe(&self) -> ScenarioInfo {
         ScenarioInfo {
             level: "exploration",
-            rule: "one seeded run = a seeded MeCab model description (1-6 BIGRAM templates over %L[i], %R[i], %L?[i], %R?[i] and literal text; right-id.def/left-id.def with 2-8 dense ids, id 0 = BOS/EOS; model.def with positive, negative, zero, truncating-to-zero, unlisted, unmatched and slash-less lines plus header lines; cost factors 1-800), in 30% of the runs one of the statement's error worlds (gap among the ids, id 0 not BOS/EOS, malformed id line - must return Err). generate_bigram_info runs with short/EINTR readers and sinks; its three outputs are compiled with the raw connector and, for every pair of non-zero ids, the connection cost must equal the harness-side expansion of the model: sum over applicable templates of -trunc(w*factor) of the line 'Lexp/Rexp'; ids must be emitted densely ascending; a hard fault at a seeded offset of a sink must give Err (never Ok with a short file), a fired hard reader fault must give Err. Added later: id tables listed in shuffled order (1 in 4), rows ending in a comma (1 world in 8), cost factors up to 100000, two optional references on one side and a non-optional twin template expanding to the same text; sinks by &mut or owned BufWriter/LineWriter. Round 5: template literals containing '#' and ';', feature values with a blank inside. distinct_nontrivial = distinct plan hashes of runs with >= 1 comparison",
+            rule: "one seeded run = a seeded MeCab model description (1-6 BIGRAM templates over %L[i], %R[i], %L?[i], %R?[i] and literal text; right-id.def/left-id.def with 2-8 dense ids, id 0 = BOS/EOS; model.def with positive, negative, zero, truncating-to-zero, unlisted, unmatched and slash-less lines plus header lines; cost factors 1-800), in 30% of the runs one of the statement's error worlds (gap among the ids, id 0 not BOS/EOS, malformed id line - must return Err). generate_bigram_info runs with short/EINTR readers and sinks; its three outputs are compiled with the raw connector and, for every pair of non-zero ids, the connection cost must equal the harness-side expansion of the model: sum over applicable templates of -trunc(w*factor) of the line 'Lexp/Rexp'; ids must be emitted densely ascending; a hard fault at a seeded offset of a sink must give Err (never Ok with a short file), a fired hard reader fault must give Err. Added later: id tables listed in shuffled order (1 in 4), rows ending in a comma (1 world in 8), cost factors up to 100000, two optional references on one side and a non-optional twin template expanding to the same text; sinks by &mut or owned BufWriter/LineWriter. Round 5: template literals containing '#' and ';', feature values with a blank inside. Round 6: references of the other side's kind in a template (literal text), id-0 lines that only start like BOS/EOS (rejected), a quoted \"BOS/EOS\" (accepted). distinct_nontrivial = distinct plan hashes of runs with >= 1 comparison",
             assumptions: vec![
                 "template shapes are restricted to those the MeCab documentation defines unambiguously; feature values contain no '/'",
                 "a table without id 0 is outside the statement and not generated",
